@@ -857,8 +857,8 @@ class NonlinearSolver(Solver):
         if np.isinf(norm) or np.isnan(norm):
             self._inf_nan_failure()
 
-        # solver stalled.
-        elif stalled:
+        # solver stalled (an iterate that meets a tolerance is converged, not stalled).
+        elif stalled and not (norm <= atol or norm / norm0 <= rtol):
             msg = (f"Solver '{self.SOLVER}' on system '{system.pathname}' stalled after "
                    f"{self._iter_count} iterations.")
             self.report_failure(msg)
